@@ -1,4 +1,6 @@
 import MontePyVerif.Model.Errors
+import MontePyVerif.Lemmas.ReaderErrors
+import MontePyVerif.Props.C20
 /-!
 # C13 — bad input fails in a controlled way: a deliberate error, never a leak or hang
 
@@ -27,7 +29,8 @@ def policy : Region → List Cls
       [.MalformedInputError, .ParsingError, .BrokenObjectLinkError, .RedundantParameterSpecification,
        .ParticleTypeNotInProblem, .ParticleTypeNotInCell, .UnknownElement, .IllegalState, .ValueError, .UnicodeDecodeError]
   | .parseInputInner =>
-      [.MalformedInputError, .ParsingError, .NumberConflictError, .BrokenObjectLinkError, .UnsupportedFeature, .UnknownElement]
+      [.MalformedInputError, .ParsingError, .NumberConflictError, .BrokenObjectLinkError, .UnsupportedFeature, .UnknownElement,
+       .TypeError]
   | .parseInputOuter =>
       [.MalformedInputError, .ParsingError, .BrokenObjectLinkError, .UnsupportedFeature, .FileNotFoundError]
   | .uipLoadData => [.MalformedInputError, .ParsingError, .BrokenObjectLinkError]
@@ -513,7 +516,7 @@ theorem C13_link_errors (s : St) :
       · have ht' : s.data.contains (.transform t) = false := by simpa using ht
         simp only [ht'] at hn
         repeat' (split at hn)
-        all_goals first | contradiction | cases hn
+        all_goals contradiction
     obtain ⟨x, hx⟩ := Option.ne_none_iff_exists'.mp hne
     have hxc := surfaceLinkError_cls s _ x hx
     subst hxc
@@ -679,13 +682,14 @@ theorem C13_deliberate_is_documented :
 def C13_any_class_statement : Prop :=
   ∀ (file : List Item), (readInput .check file).final = .returned
 
-/-- **C13_any_class_refuted.** It does not hold: a class outside ValueError that no handler names (a TypeError or
-    AttributeError thrown by the runtime in a constructor, after the guarded parse) passes every layer in both modes.
+/-- **C13_any_class_refuted.** It does not hold: a class outside ValueError and TypeError that no handler names (an
+    AttributeError, IndexError or KeyError thrown by the runtime in a constructor, after the guarded parse) passes every
+    layer in both modes.
     The mapping layer cannot make *every* Python exception deliberate; which expressions throw is explored on the real
     code (known findings C13-F*). -/
 theorem C13_any_class_refuted : ¬ C13_any_class_statement := by
   intro h
-  have := h [.input .other (some ⟨.ctor, .TypeError⟩)]
+  have := h [.input .other (some ⟨.ctor, .AttributeError⟩)]
   revert this
   decide
 
@@ -702,7 +706,82 @@ theorem C13_any_class_partial :
   have hflush : flushInput .ValueError = .yieldInput := by decide
   simp [readInput, readItems, stepItem, hflush, innerHandle, outerHandle, outcome, h1, h2]
 
-example : handled .parseInputInner (constructClass ⟨.ctor, .TypeError⟩) = false
-    ∧ handled .parseInputOuter (constructClass ⟨.ctor, .TypeError⟩) = false := by decide
+example : handled .parseInputInner (constructClass ⟨.ctor, .AttributeError⟩) = false
+    ∧ handled .parseInputOuter (constructClass ⟨.ctor, .AttributeError⟩) = false := by decide
+
+/-- a TypeError raised while one input is built (explicit, like `Mode particle must be a str`, or thrown by the
+    runtime) is taken by the per-input handler: a warning in check mode, re-raised unchanged in normal mode -/
+example : (readInput .check [.input .mode (some ⟨.ctor, .TypeError⟩)]).final = .returned
+    ∧ (readInput .normal [.input .mode (some ⟨.ctor, .TypeError⟩)]).final = .raised .TypeError (some .parseInputInner) := by
+  decide
+
+/-! ## 4. The reader itself (reusing the reader model of C11/C20, `Model/Reader.lean`)
+
+`Model.Errors` takes reader-level faults as given (`Item.readerRaise c`).  The theorems below discharge that
+assumption against the *line-level* model of `read_front_matters` / `read_data` / the read-card queue that C11 and C20
+validate against the code: for every byte content of every file, the reader is total, stops at its first error, and
+that error is one of the classes the outer handler of `parse_input` takes. -/
+
+open MontePyVerif.Reader in
+/-- the exception class a reader error of `Model.Reader` stands for (`outOfFuel` is not an outcome of the code) -/
+def errCls : Reader.Err → Option Cls
+  | .parsing => some .ParsingError
+  | .malformed => some .MalformedInputError
+  | .unsupported => some .UnsupportedFeature
+  | .fileNotFound => some .FileNotFoundError
+  | .outOfFuel => none
+
+open MontePyVerif.Reader in
+/-- **C13_reader_total.** `Reader.readData` (= `read_data` on one file, a structurally recursive total function:
+    it terminates on every list of lines) fails — for EVERY configuration and EVERY content — only with a malformed
+    read input (ParsingError), a read cycle (MalformedInputError) or vertical format (UnsupportedFeature); nothing is
+    yielded after the first error; and each of these classes is raised by a `raise` statement of the reader
+    (`raisedIn .parseInputOuter`, from the AST) and is taken by the outer handler of `parse_input` — so in check mode
+    every reader-level failure is a warning and the call returns. -/
+theorem C13_reader_total (cfg : Reader.Cfg) (lines : List Reader.Str) :
+    (∀ e, Event.raise e ∈ readData cfg lines → e = .parsing ∨ e = .malformed ∨ e = .unsupported)
+    ∧ cut (readData cfg lines) = readData cfg lines
+    ∧ (∀ e, Event.raise e ∈ readData cfg lines →
+        ∃ c, errCls e = some c ∧ c ∈ raisedIn .parseInputOuter ∧ handled .parseInputOuter c = true
+          ∧ outerHandle .check {} c = .stop { warnings := [c] }) := by
+  refine ⟨ore_readData cfg lines, cut_readData cfg lines, ?_⟩
+  intro e he
+  rcases ore_readData cfg lines e he with rfl | rfl | rfl
+  · exact ⟨.ParsingError, rfl, by decide, by decide, by decide⟩
+  · exact ⟨.MalformedInputError, rfl, by decide, by decide, by decide⟩
+  · exact ⟨.UnsupportedFeature, rfl, by decide, by decide, by decide⟩
+
+/-- non-vacuity: a vertical-format line and a malformed read input do raise -/
+example : Reader.Event.raise .unsupported ∈ Reader.readData ⟨128, .cell, ['m'], [['m']]⟩ ["1 0 -1".toList, "# 1 2".toList] := by
+  decide
+
+example : Reader.Event.raise .parsing ∈ Reader.readData ⟨128, .cell, ['m'], [['m']]⟩ ["read foo".toList] := by decide
+
+open MontePyVerif.Reader in
+/-- **C13_reader_terminates.** The whole reader with its read-card queue (`Reader.readAll` = `read_input_syntax`
+    consumed to the end), on every finite file system and every top-level file: from some fuel on the run is the same
+    for every larger fuel (the queue empties: never a hang — `C20_term_always`, reused), it never ends for lack of
+    fuel, and every error it ends with stands for a class the outer handler takes: the three of `read_data` or
+    FileNotFoundError for a read target (or top file) that is missing. -/
+theorem C13_reader_terminates (ll : Nat) (fs : FS) (main : Reader.Str) (bytes : List Nat) (support : List Reader.Str)
+    (hsup : ∀ p, fs p ≠ none → p ∈ support) (hm : fs main = some bytes) :
+    ∃ fuel0, ∀ extra, readAll ll (extra + fuel0) fs main = readAll ll fuel0 fs main ∧
+      ∀ e, Event.raise e ∈ readAll ll (extra + fuel0) fs main →
+        ∃ c, errCls e = some c ∧ handled .parseInputOuter c = true ∧ documented c = true := by
+  obtain ⟨_, fuel0, h⟩ := MontePyVerif.C20.C20_term_always ll fs main bytes support hsup hm
+  refine ⟨fuel0, fun extra => ⟨(h extra).1, ?_⟩⟩
+  intro e he
+  rw [(h extra).1] at he
+  cases e with
+  | parsing => exact ⟨.ParsingError, rfl, by decide, by decide⟩
+  | malformed => exact ⟨.MalformedInputError, rfl, by decide, by decide⟩
+  | unsupported => exact ⟨.UnsupportedFeature, rfl, by decide, by decide⟩
+  | fileNotFound => exact ⟨.FileNotFoundError, rfl, by decide, by decide⟩
+  | outOfFuel => exact absurd he (h extra).2
+
+/-- non-vacuity: C20's example file systems satisfy the hypotheses; the one with a missing read target ends with
+    FileNotFoundError -/
+example : Reader.firstRaise (Reader.readAll 128 2 MontePyVerif.C20.exFsMissing ['d', '/', 'm']) = some .fileNotFound := by
+  decide
 
 end MontePyVerif.Errors
